@@ -297,11 +297,12 @@ func runR(c RCase, rec *h.Rec) {
 	switch {
 	case both:
 		rec.Class("bin_both_unmapped_not_asserted_when_placed")
-	case wantEnd > 1<<29:
-		rec.Class("bin_end_beyond_indexable_range_not_asserted")
+	case c.Pos >= 1<<29:
+		rec.Class("bin_start_beyond_indexable_range_not_asserted")
 	case wantEnd <= c.Pos:
 		rec.Class("bin_zero_reference_length_not_asserted")
 	default:
+		rec.ClassIf(wantEnd > 1<<29, "bin_end_beyond_2^29")
 		if got, want := r.Bin(), specReg2bin(c.Pos, wantEnd); got != want {
 			rec.Failf("Bin() = %d, spec reg2bin(%d,%d) = %d (cigar %v flags %#x)", got, c.Pos, wantEnd, want, cig, c.Flags)
 			return
